@@ -780,7 +780,10 @@ def evaluate(ctx, cases):
     for c, i, (a, b) in zip(cases, impls, spans):
         o = outs[a:b]
         extra = o[-1] if ("err" not in i and "first_failed" not in i and "rts" in i) else None
-        judge(ctx, c, i, o, extra)
+        try:
+            judge(ctx, c, i, o, extra)
+        except Exception as e:  # noqa: BLE001 -- what evo returned could not even be judged: a finding about this case, never a tool error
+            ctx.fail(c, "output-cannot-be-judged", f"the harness could not judge what evo returned: {type(e).__name__}: {str(e)[:200]}")
 
 
 OPEN = ["the Umeyama triple is evo's own (numpy SVD, not modelled): it is certified per case by umeCert eps=2^-30 on the "
